@@ -214,6 +214,8 @@ def check_C05(tier, seed, t0):
     rng = random.Random(1000 + seed)
     descs = P.herm_basic(rng, n_of(tier, 90, 900), types=("d", "d", "f", "l") if tier == "thorough" else ("d",), meas=0)
     descs += P.gen_basic(rng, n_of(tier, 70, 700), types=("d", "d", "f", "l") if tier == "thorough" else ("d",), meas=0, ref=0)
+    # breakdown-heavy inputs (zero, identity, low rank, few distinct eigenvalues): expand_basis() applies the operator too, and retries without
+    descs += P.degenerate(rng, n_of(tier, 90, 900), types=("d",))
     own = ["RetEqSizes", "RetEqComputeEnd", "StatusIffAll", "StatusDocumented", "AccessorsEqComputeEnd", "SortedBy", "PrefixColumns",
            "OpsEqTrue*", "ValsEqCols", "CountLeNev", "NotComputedBefore", "FlagsEqCount", "RowsEqN", "ArgsForwarded", "SelectionForwarded",
            "SortingForwarded", "I:RestartsBounded", "I:CountsAgree", "I:OpsCounted", "Genuine"] + PROTO
@@ -365,7 +367,7 @@ def kernel_descs(mode, tier, seed):
     out = []
     for ty in ("d", "f", "l"):
         for i in range(n_of(tier, 2, 8)):
-            out.append("mode=%s;kty=%s;count=%d;nmax=%d;seed=%d" % (mode, ty, n_of(tier, 66, 330), 64 if mode == "eig" else 48, seed * 100 + i))
+            out.append("mode=%s;kty=%s;count=%d;nmax=%d;seed=%d" % (mode, ty, n_of(tier, 75, 330), 64 if mode == "eig" else 48, seed * 100 + i))
     return out
 
 
@@ -405,10 +407,10 @@ def check_C11(tier, seed, t0):
 FIXED_AUX = {"C17": ["mode=lobpcg;count=1;seed=5;kfix=1"], "C15": ["mode=davidson;count=1;seed=3;dec=1"]}
 
 
-def aux_flow(prop, tier, seed, t0, mode, count, own, models, neg, notes):
+def aux_flow(prop, tier, seed, t0, mode, count, own, models, neg, notes, extra_stages=None, extra_cov=None):
     descs = ["mode=%s;count=%d;seed=%d" % (mode, count, seed * 10 + i) for i in range(n_of(tier, 4, 16))] + FIXED_AUX.get(prop, [])
     return ir_flow(prop, tier, seed, descs, own, models, COMMON_ASSUME[:1] + notes, t0, trace_module="TraceAux.tla", trace_cfg="TraceAux.cfg",
-                   driver_of=lambda d: "drv_aux", neg_models=neg)
+                   driver_of=lambda d: "drv_aux", neg_models=neg, extra_stages=extra_stages, extra_cov=extra_cov)
 
 
 def check_C15(tier, seed, t0):
@@ -424,10 +426,22 @@ def check_C15(tier, seed, t0):
 def check_C16(tier, seed, t0):
     own = ["SvdFinite", "SingularValuesNonNegative", "SingularValuesNonIncreasing", "CountsAgree", "ColsAreMinKNconv", "ColsIndependentOfCallOrder", "FactorShapes", "DescribesMostRecentCompute",
            "MatchesLargestSingularValues", "FactorsFinite", "FactorsOrthonormal", "FactorIdentities", "UnknownRow"]
-    return aux_flow("C16", tier, seed, t0, "svd", n_of(tier, 24, 120), own, [("PartialSVD.tla", "SVD.cfg", 4)], [("PartialSVD.tla", "SVD_neg.cfg", 2)], [
+    # specification -> code -> specification: every call sequence of MC_SVDSeq up to the bound, executed on the real class
+    import krygen
+    seqs, info = krygen.svd_sequences(n_of(tier, 4, 5))
+    if not info.get("ok"):
+        raise V.Infra("MC_SVDSeq did not pass: %s" % info.get("stdout_tail", ""))
+    log("[gen] PartialSVD behaviours len=%d: %d states, %d call sequences" % (info["maxlen"], info["states"], len(seqs)))
+    sdescs = ["mode=svdseq;seed=%d;shape=%d;form=%d;ops=%s" % (seed * 100000 + i, i % 3, (i // 3) % 3, x) for i, x in enumerate(seqs)]
+    stage = dict(descs=sdescs, trace_module="TraceAux.tla", trace_cfg="TraceAux.cfg", driver_of=lambda d: "drv_aux")
+    own += ["Seq*", "G:SeqRead"]
+    return aux_flow("C16", tier, seed, t0, "svd", n_of(tier, 24, 120), own, [("PartialSVD.tla", "SVD.cfg", 4), ("MC_SVDSeq.tla", "SVDSeq.cfg", 4)],
+                    [("PartialSVD.tla", "SVD_neg.cfg", 2), ("MC_SVDSeq.tla", "SVDSeq_neg.cfg", 2)], [
         "design model: all sequences of compute / matrix_U / matrix_V up to 6 calls: reads always describe the most recent compute (negative control: cache never invalidated)",
+        "generated behaviours: ALL call sequences (compute with 3 argument sets incl. one that stops partly converged, singular_values, matrix_U/V(k) for k below / at / above ncomp) "
+        "of the length logged under generated_behaviours, each executed on one tall/wide/square dense, row-major or sparse matrix and compared call for call with a reference object",
         "runs: tall/wide/square, dense col-/row-major and sparse, prescribed singular values incl. exactly rank-deficient matrices, every solver used for two compute() calls "
-        "with different maxit/tol and compared bit for bit with a fresh solver"])
+        "with different maxit/tol and compared bit for bit with a fresh solver"], extra_stages=[stage], extra_cov=dict(generated_behaviours=[dict(info, sequences=len(seqs))]))
 
 
 def check_C17(tier, seed, t0):
